@@ -201,10 +201,21 @@ type Op struct {
 	Chart          ChartSpec              `json:"chart"`
 	Values         map[string]interface{} `json:"values,omitempty"`
 	Fault          Fault                  `json:"fault,omitempty"`
+	// Interject makes another actor create an object while the operation runs: right before the operation's
+	// AtKube-th cluster request is processed (only if no object exists at that path then).
+	Interject *Interject `json:"interject,omitempty"`
 	// Customize lets a property adjust the action object (e.g. set fields the Op does not model).
 	Customize func(a interface{}) `json:"-"`
 	// Gate is installed on the operation's context (schedulers).
 	Gate func(layer, verb, key string) `json:"-"`
+}
+
+// Interject is an out-of-band object creation in the middle of an operation.
+type Interject struct {
+	AtKube int                    `json:"atKube"`
+	Path   string                 `json:"path"`
+	Object map[string]interface{} `json:"object"`
+	Done   bool                   `json:"-"`
 }
 
 // Describe renders the op for traces.
@@ -256,6 +267,9 @@ func (o *Op) Describe() string {
 	}
 	if o.Fault.Kind != "" {
 		s += " fault=" + o.Fault.String()
+	}
+	if o.Interject != nil {
+		s += fmt.Sprintf(" interject(%s before request %d)", o.Interject.Path[strings.LastIndex(o.Interject.Path, "/")+1:], o.Interject.AtKube)
 	}
 	return s
 }
@@ -323,6 +337,23 @@ func (w *World) NewConfig(ctx *OpCtx) (*action.Configuration, func()) {
 func (w *World) Run(op *Op) *Result {
 	w.nextOp++
 	ctx := &OpCtx{ID: w.nextOp, Fault: op.Fault, Gate: op.Gate}
+	if ij := op.Interject; ij != nil {
+		n := 0
+		inner := op.Gate
+		ij.Done = false
+		ctx.Gate = func(layer, verb, key string) {
+			if layer == "kube" {
+				if n == ij.AtKube && w.Cluster.Get(ij.Path) == nil {
+					w.Cluster.Put(ij.Path, ij.Object)
+					ij.Done = true
+				}
+				n++
+			}
+			if inner != nil {
+				inner(layer, verb, key)
+			}
+		}
+	}
 	res := &Result{ID: ctx.ID, Pre: w.History()}
 	start := w.Log.Len()
 	cfg, cleanup := w.NewConfig(ctx)
